@@ -119,7 +119,7 @@ func genLineContent(r *sim.Rand, n int) []byte {
 }
 
 func (p *c18) Gen(seed uint64, i int, tier string) (any, bool) {
-	n := 20000
+	n := 150000
 	if tier == "thorough" {
 		n = 1500000
 	}
